@@ -44,7 +44,11 @@ func newIteratorPool(createIterator func() *rocksdb.Iterator) *IteratorPool {
 }
 
 func (pool *IteratorPool) get() iteratorPoolEntry {
-	if !pool.enabled {
+	// enabled is written by enable()/disable() under the lock: read it under the lock as well
+	pool.l.Lock()
+	enabled := pool.enabled
+	pool.l.Unlock()
+	if !enabled {
 		return iteratorPoolEntry{iterator: pool.createIterator(), free: true}
 	}
 
